@@ -1,0 +1,18 @@
+//go:build verif
+
+package server
+
+// Verification hooks (build tag "verif"): yield/crash points dispatching to a
+// harness-installed callback, and a switch that disables the wall-clock sweeper
+// goroutines so a harness can drive the sweeps itself.
+
+var VerifPointFunc func(name string, a interface{}, b interface{})
+var VerifManualClock bool
+
+func verifPoint(name string, a interface{}, b interface{}) {
+	if f := VerifPointFunc; f != nil {
+		f(name, a, b)
+	}
+}
+
+func verifManualClock() bool { return VerifManualClock }
